@@ -6,8 +6,8 @@ use crate::fmts::F;
 use crate::model::*;
 use crate::universe as u;
 
-pub const LITERALS: [&str; 16] =
-    ["a", "0", "1", "0.5", "2", "-", "-1", "+", " ", "é", "😀", "\u{301}", "\\", "{", "}", "="];
+pub const LITERALS: [&str; 19] =
+    ["a", "0", "1", "0.5", "2", "-", "-1", "+", " ", "é", "😀", "\u{301}", "\\", "{", "}", "=", "\t", "\n", "\u{3000}"];
 
 /// every distinct non-empty keyword of the format
 pub fn keywords(f: &F) -> Vec<String> {
